@@ -1,6 +1,90 @@
-//! C30: not implemented yet.
+//! C30: remote manifest references through XMP.  case: {"op": ...}
+//!  rt      {xmp|null, key|null, value}  add then extract on XMP strings (key null = add_provenance/extract_provenance;
+//!                                       xmp null = MIN_XMP)            -> {r:"ok", out, got|null} | {r:"err", kind}
+//!  extract {xmp, key|null}                                             -> {r:"ok", got|null}
+//!  handler {format, fixture, url}       embed_reference_to_stream + XmpInfo::from_source
+//!                                       -> {r:"ok", got|null, xmp_before|null, xmp_after|null} | {r:"err", kind}
+//!  api     {format, fixture, url}       Builder::set_remote_url + set_no_embed + sign, then Reader
+//!                                       -> {r:"ok", reader:"RemoteManifestUrl"|..., got|null}
+use std::io::Cursor;
+
+use c2pa::{verif_hooks::c30 as hk, Builder, Error, Reader};
 use serde_json::{json, Value};
 
-pub fn run(_case: &Value) -> Value {
-    json!({"r": "unimplemented"})
+use crate::{e2e, util::*};
+
+fn opt(v: Option<String>) -> Value {
+    match v {
+        Some(s) => Value::String(s),
+        None => Value::Null,
+    }
+}
+
+pub fn run(case: &Value) -> Value {
+    let key = case["key"].as_str();
+    match case["op"].as_str().unwrap_or("") {
+        "rt" => {
+            let xmp = case["xmp"].as_str().unwrap_or(hk::MIN_XMP);
+            let value = case["value"].as_str().unwrap_or("");
+            let out = match key {
+                None => hk::xmp_add_provenance(xmp, value),
+                Some(k) => hk::verif_add_xmp_key(xmp, k, value),
+            };
+            match out {
+                Err(e) => json!({"r": "err", "kind": err_class(&e)}),
+                Ok(out) => {
+                    let got = match key {
+                        None => hk::xmp_extract_provenance(&out),
+                        Some(k) => hk::verif_extract_xmp_key(&out, k),
+                    };
+                    json!({"r": "ok", "out": out, "got": opt(got)})
+                }
+            }
+        }
+        "extract" => {
+            let xmp = case["xmp"].as_str().unwrap_or(hk::MIN_XMP);
+            let got = match key {
+                None => hk::xmp_extract_provenance(xmp),
+                Some(k) => hk::verif_extract_xmp_key(xmp, k),
+            };
+            json!({"r": "ok", "got": opt(got)})
+        }
+        "handler" => {
+            let format = case["format"].as_str().unwrap_or("jpg");
+            let src = e2e::fixture(case["fixture"].as_str().unwrap_or("IMG_0003.jpg"));
+            let url = case["url"].as_str().unwrap_or("");
+            let before = hk::read_xmp(format, &src);
+            match hk::embed_xmp_reference(format, &src, url) {
+                Err(e) => json!({"r": "err", "kind": err_class(&e), "xmp_before": opt(before)}),
+                Ok(out) => json!({"r": "ok", "got": opt(hk::xmp_info_provenance(format, &out)),
+                                  "xmp_before": opt(before), "xmp_after": opt(hk::read_xmp(format, &out))}),
+            }
+        }
+        "api" => {
+            let format = case["format"].as_str().unwrap_or("jpg");
+            let src = e2e::fixture(case["fixture"].as_str().unwrap_or("IMG_0003.jpg"));
+            let url = case["url"].as_str().unwrap_or("");
+            let signer = e2e::signer("ed25519");
+            let ctx = e2e::context(Some(r#"{"verify": {"remote_manifest_fetch": false}}"#));
+            let mut builder = match Builder::from_context(ctx).with_definition(e2e::minimal_manifest("c30").as_str()) {
+                Ok(b) => b,
+                Err(e) => return json!({"r": "err", "stage": "definition", "kind": err_class(&e)}),
+            };
+            builder.set_remote_url(url);
+            builder.set_no_embed(true);
+            let mut input = Cursor::new(src);
+            let mut out = Cursor::new(Vec::new());
+            if let Err(e) = builder.sign(signer.as_ref(), format, &mut input, &mut out) {
+                return json!({"r": "err", "stage": "sign", "kind": err_class(&e), "detail": format!("{}", e)});
+            }
+            let signed = out.into_inner();
+            let rctx = e2e::context(Some(r#"{"verify": {"remote_manifest_fetch": false}}"#));
+            match Reader::from_context(rctx).with_stream(format, Cursor::new(signed)) {
+                Ok(_) => json!({"r": "ok", "reader": "Ok", "got": Value::Null}),
+                Err(Error::RemoteManifestUrl(u)) => json!({"r": "ok", "reader": "RemoteManifestUrl", "got": u}),
+                Err(e) => json!({"r": "ok", "reader": err_class(&e), "got": Value::Null}),
+            }
+        }
+        _ => json!({"r": "bad-op"}),
+    }
 }
